@@ -14,11 +14,14 @@ func init() {
 
 const zipPlaceholder = `import GoUtils.Model.ZipPath
 import GoUtils.Model.Unzip
+import GoUtils.Model.Archive
 namespace GoUtils.Generated.Zip
 def ok : Bool := false
 def sanitise : GoUtils.ZipPath.SanitiseFacts := default
 def limits : GoUtils.Unzip.LimitFacts := default
 def zipReplacesDestination : Bool := false
+def extract : GoUtils.Archive.ExtractFacts := default
+def zipWritesDirEntries : Bool := false
 end GoUtils.Generated.Zip
 `
 
@@ -154,10 +157,41 @@ func extractZip(root string) (string, map[string]any, error) {
 		zipReplaces = createTruncates && strings.Contains(zb, "file, err := fs.CreateFile(destination)") && strings.Contains(zb, "w := zip.NewWriter(file)") &&
 			strings.Contains(zb, "if err == nil { err = w.Close() }")
 	}
-	lean := fmt.Sprintf("import GoUtils.Model.ZipPath\nimport GoUtils.Model.Unzip\nnamespace GoUtils.Generated.Zip\ndef ok : Bool := true\n"+
+	// ---- the extraction loop as Model.Archive reads it (C07): the destination is created before the loop, a directory
+	// entry is created, the directory of a file entry is created before the file is opened, MkDir is `mkdir -p`
+	mk := p.method("VFS", "MkDir")
+	if mk == nil || norm(p.src(mk.Body)) != "{ return fs.MkDirAll(dir, 0755) }" {
+		return "", nil, fmt.Errorf("VFS.MkDir is not MkDirAll any more")
+	}
+	iDest := strings.Index(ub, "destination = filepath.Clean(destination) err = fs.MkDir(destination) if err != nil { return }")
+	if iDest < 0 || iDest > loopStart {
+		return "", nil, fmt.Errorf("unzip: creation of the destination before the loop not recognised")
+	}
+	dirEntriesCreated := dirIf != nil && len(dirIf.Body.List) > 1 && norm(p.src(dirIf.Body.List[0])) == "subErr = fs.MkDir(filePath)" &&
+		strings.HasPrefix(norm(p.src(dirIf.Body.List[1])), "if subErr != nil { return ")
+	iParent := strings.Index(ub, "directoryPath := filepath.Dir(filePath) subErr = fs.MkDir(directoryPath) if subErr != nil { return ")
+	iFile := strings.Index(ub, "fs.unzipZippedFile(ctx, filePath, zippedFile,")
+	if iFile < 0 {
+		return "", nil, fmt.Errorf("unzip: call of unzipZippedFile not recognised")
+	}
+	parentsFirst := iParent >= 0 && iParent < iFile
+	// the walk of Zip writes an entry for every directory below the source (name + "/"), and a file entry under the relative path
+	zipWritesDirs := false
+	if zm := p.method("VFS", "ZipWithContextAndLimitsAndExclusionPatterns"); zm != nil {
+		zb := norm(p.src(zm.Body))
+		dirRe := regexp.MustCompile(`if info\.IsDir\(\) \{ if path == source \{ return nil \} header := &zip\.FileHeader\{ Name: relPath \+ "/", Method: zip\.Deflate, Modified: info\.ModTime\(\), \} _, err = w\.CreateHeader\(header\) return err \}`)
+		fileRe := regexp.MustCompile(`relPath, err = filepath\.Rel\(source, path\) if err != nil \{ return err \} header := &zip\.FileHeader\{ Name: relPath, Method: zip\.Deflate, Modified: info\.ModTime\(\), \} dest, err := w\.CreateHeader\(header\)`)
+		if !fileRe.MatchString(zb) || !strings.Contains(zb, "relPath, err := filepath.Rel(source, path)") {
+			return "", nil, fmt.Errorf("Zip: file entries of the walk not recognised")
+		}
+		zipWritesDirs = dirRe.MatchString(zb)
+	}
+	lean := fmt.Sprintf("import GoUtils.Model.ZipPath\nimport GoUtils.Model.Unzip\nimport GoUtils.Model.Archive\nnamespace GoUtils.Generated.Zip\ndef ok : Bool := true\n"+
 		"def sanitise : GoUtils.ZipPath.SanitiseFacts := { joinsDestFirst := true, acceptsDestItself := true, rejectsDotDot := true, prefixWithSeparator := true, sanitiseBeforeMutation := %s, cleansDestination := %s }\n"+
 		"def limits : GoUtils.Unzip.LimitFacts := { archiveDepthStrict := %s, archiveSizeStrict := %s, entryDepthStrict := %s, totalStrict := %s, countStrict := %s, fileSizeStrict := %s, copiesDeclaredSize := %s, sizeCheckBeforeCopy := %s, nestedDepthPlusOne := %s, zipNamesCountedAfterExtraction := %s, checksAfterEachFile := %s }\n"+
 		"/-- Zip writes into a created-or-truncated destination and reports the error of closing the archive -/\ndef zipReplacesDestination : Bool := "+leanBool(zipReplaces)+"\n"+
+		"def extract : GoUtils.Archive.ExtractFacts := { dirEntriesCreated := "+leanBool(dirEntriesCreated)+", parentsCreatedBeforeFiles := "+leanBool(parentsFirst)+" }\n"+
+		"def zipWritesDirEntries : Bool := "+leanBool(zipWritesDirs)+"\n"+
 		"end GoUtils.Generated.Zip\n",
 		leanBool(before), leanBool(cleans), vals["archiveDepthStrict"], vals["archiveSizeStrict"], vals["entryDepthStrict"], vals["totalStrict"], vals["countStrict"], vals["fileSizeStrict"],
 		leanBool(copiesDeclared), leanBool(sizeCheckBeforeCopy), leanBool(nestedDepth), leanBool(countsSkipZipNames), leanBool(checksAfterEachFile))
